@@ -50,7 +50,7 @@ func (h *byName) CheckSyscall(s string) ptracer.TraceAction { return ptracer.Tra
 
 func main() {
 	hx.Init()
-	filter, err := (&libseccomp.Builder{Trace: []string{"mkdirat", "execve"}, Default: libseccomp.ActionAllow}).Build()
+	filter, err := (&libseccomp.Builder{Trace: []string{"mkdirat", "execve", "rename", "renameat2", "linkat"}, Default: libseccomp.ActionAllow}).Build()
 	if err != nil {
 		panic(err)
 	}
